@@ -179,11 +179,11 @@ def declares(node, e):
     """Does this (resolved) node declare exactly the parameter error e carries?"""
     name = type(e).__name__
     k = node[0]
-    if k in ("mult", "pmult"):
+    if k in ("mult", "nmult"):
         # the user type reports a wrong kind as a type error (int) and a non-multiple as a value
         # error quoting an example multiple
         return (name == "TypeValidationError" and e.expected_type is int) or \
-            (name == "ValueValidationError" and e.expected_value == node[1] * 2)
+            (name == "ValueValidationError" and e.expected_value in (node[1] * 2, node[1] * 2 + 1))
     p = {}
     if k in M.SCALARS:
         p = M.props_of(node[1])
